@@ -940,3 +940,13 @@ M("C15-macro-arg-string-loop-ignores-eof", "C15", "src/cppparser/cppPreprocessor
 M("C15-benign-skip-whitespace-eof-break", "C15", "src/cppparser/cppPreprocessor.cxx",
   "  while (c != EOF && isspace(c)) {\n    c = get();\n  }\n\n  if (c != '(') {\n    // No paren, so we have only one arg.", "  while (isspace(c)) {\n    c = get();\n    if (c == EOF) {\n      break;\n    }\n  }\n\n  if (c != '(') {\n    // No paren, so we have only one arg.",
   benign=True)
+
+M("C15-define-ctor-steps-past-end", "C15", "src/cppparser/cppManifest.cxx",
+  "    if (p < args.size()) {\n      // Skip the closing parenthesis (it is missing if the parameter list\n      // runs to the end of the line).\n      p++;\n    }\n", "    p++;\n",
+  expect="R15.9|CPPManifest::CPPManifest|p|increment#")
+M("C15-extract-args-steps-past-end", "C15", "src/cppparser/cppManifest.cxx",
+  "        if (p >= expr.size()) {\n          // Unterminated quote; don't step past the end of the string.\n          break;\n        }\n", "",
+  expect="R15.9|CPPManifest::extract_args|p|increment#")
+M("C15-benign-cursor-guard-form", "C15", "src/cppparser/cppManifest.cxx",
+  "    if (p < args.size()) {\n      // Skip the closing parenthesis (it is missing if the parameter list\n      // runs to the end of the line).\n      p++;\n    }\n", "    if (args.size() > p) {\n      ++p;\n    }\n",
+  benign=True)
